@@ -115,7 +115,7 @@ def gen_case(rng, k):
         m = l5.gen_multi(rng, country if country in ("us", "generic") else "us", window=rng.chance(50))
         m["sched"] = [[min(first_year(m), rng.choice([2015, 2017, 2019, 1971])), rng.choice(hist.METHS)]]
         m["kind"] = "single-late-schedule"
-    elif kind == 13:
+    elif kind in (13, 3, 8):
         # 2-4 assets, mid-year from-date: hidden lots / years whose detail rows are all hidden (findings F2, F3)
         m = l5.gen_multi(rng, country, n_assets=rng.range(2, 4), window=False)
         days = sorted({hist.local_day(r["ts"]) for c in m["assets"] for r in all_rows(c)})
@@ -123,6 +123,27 @@ def gen_case(rng, k):
         if rng.chance(30):
             m["to"] = m["from"] + rng.choice([0, 10, 200, 400])
         m["kind"] = "multi-from"
+        if kind != 13 or rng.chance(60):
+            # asset names that are prefixes of one another followed by digits (ETH / ETH2, LUNA / LUNA2): "B1" + row 13 and
+            # "B11" + row 3 spell the same text, so keys built by gluing name and row number collide across assets
+            for c, name in zip(m["assets"], ["B1", "B11", "B111", "B1111"]):
+                c["asset"] = name
+            m["kind"] = "multi-from-prefix-names"
+            # make the collision real in most of them: the from-date hides the first lot of B11 (row k), and a transaction of B1
+            # that stays visible sits on row "1k"
+            a, b = m["assets"][0], m["assets"][1]
+            first = min(b["ins"], key=lambda r: r["ts"][0])
+            later = [r for r in b["outs"] + [x for x in b["intras"] if x["crypto_sent"] != x["crypto_received"]]
+                     if hist.local_day(r["ts"]) > hist.local_day(first["ts"])]
+            if rng.chance(80) and first["row"] > 0 and later:
+                m["from"] = hist.local_day(first["ts"]) + 1
+                m["to"] = None
+                if rng.chance(70):
+                    m["sched"] = [[1970, "fifo"]]       # the first lot is then certainly the one the first later disposal consumes
+                target = int("1" + str(first["row"]))
+                vis = [r for r in all_rows(a) if hist.local_day(r["ts"]) >= m["from"] and r["row"] > 0]
+                if vis and target not in {r["row"] for r in all_rows(a)}:
+                    rng.choice(vis)["row"] = target
     else:
         m = l5.gen_multi(rng, country)
         m["kind"] = "general"
